@@ -162,6 +162,7 @@ def kindStep (kinds : List Bool) (n : Node) : Option Bool :=
   | .and => if k 0 = some true ∧ k 1 = some true then some true else none
   | .or => if k 0 = some true ∧ k 1 = some true then some true else none
   | .not => if k 0 = some true then some true else none
+  | .isfinite => if k 0 = some false then some true else none
   | .select => if k 0 = some true ∧ k 1 = k 2 then k 1 else none
   | _ => none
 
@@ -496,6 +497,16 @@ theorem step (hf : WF f) (lib : Libm) (ins : List Nat) (insQ : List ℚ) (hins :
       simp only [ea, eqa, Option.bind_eq_bind, Option.bind_some, Option.some.injEq] at hv ⊢
       subst hv
       rw [(bool_truth ra).2]
+      exact ⟨_, rfl, rv_b2n _⟩
+    · cases hk
+  case isfinite =>
+    split at hk
+    · rename_i hkk
+      cases hk
+      obtain ⟨a, qa, ea, eqa, ra⟩ := arg_rel hinv hkk
+      simp only [ea, eqa, Option.bind_eq_bind, Option.bind_some, Option.some.injEq] at hv ⊢
+      subst hv
+      rw [(rv_float ra).1]
       exact ⟨_, rfl, rv_b2n _⟩
     · cases hk
   case select =>
